@@ -25,7 +25,8 @@ func init() {
 			"It does not decide accept ⇔ spec-valid for all documents (that is the rules' own logic).",
 		Mutants: []Mutant{
 			{Name: "required arguments are enforced on fields only (reverts the F70 fix)", File: "v2/pkg/astvalidation/operation_rule_required_arguments.go", Rule: "C04-R13", Key: "RequiredArguments/covers:Directive",
-				Old: "func (r *requiredArgumentsVisitor) EnterDirective(ref int) {", New: "func (r *requiredArgumentsVisitor) enterDirective(ref int) {"},
+				Old: "func (r *requiredArgumentsVisitor) EnterDirective(ref int) {", New: "func (r *requiredArgumentsVisitor) enterDirective(ref int) {",
+				Also: [][2]string{{"\t\twalker.RegisterEnterDirectiveVisitor(&visitor)\n", ""}}},
 			{Name: "the subscription root rule does not look into inline fragments (reverts part of the F69 fix)", File: "v2/pkg/astvalidation/operation_rule_subscription_single_root_field.go", Rule: "C04-R12", Key: "subscription-root-fields/every-selection-kind",
 				Old: "\t\tcase ast.SelectionKindInlineFragment:\n\t\t\tif !operation.InlineFragments[selection.Ref].HasSelections {\n\t\t\t\tcontinue\n\t\t\t}\n\t\t\tnestedFields, nestedIntrospection := s.rootFields(operation, operation.InlineFragments[selection.Ref].SelectionSet, depth+1)\n\t\t\tfields += nestedFields\n\t\t\tintrospection = introspection || nestedIntrospection\n", New: ""},
 			{Name: "a lone introspection field is accepted as subscription root (reverts part of the F69 fix)", File: "v2/pkg/astvalidation/operation_rule_subscription_single_root_field.go", Rule: "C04-R12", Key: "subscription-root-fields/introspection-tested",
